@@ -10,9 +10,13 @@ import Grass.Proto
   form* (`RComplex`: the target compound, then the (relation, compound) steps going leftwards) so
   that the matching semantics is one structural recursion.  `norm`/`RComplex.toComps` convert.
 
-  Not modelled (the parser answers `unsupported`): namespaces, attribute operators other than
-  `[t]`/`[t=v]`, pseudo arguments that are not selectors (`:nth-child(2n)`), `:has/:host/:slotted/
-  :current`, escapes in identifiers.  `Pseudo::eq` ignores `is_syntactic_class` (simple.rs:426);
+  Round 3: attribute selectors with every operator (`= ~= |= ^= $= *=`), modifier and quoted value
+  (encoding and CSS matching semantics at `attrValMatch`), and pseudos with a non-selector argument
+  (`:nth-child(2n+1)`, `:lang(en)`, `::part(x)`, unknown `:foo(bar)`) as opaque names `name(arg)`.
+
+  Not modelled (the parser answers `unsupported`): namespaces, `:has/:host/:host-context/:slotted/
+  :current`, `:nth-child(An+B of S)`, vendor-prefixed selector pseudos, non-canonical argument text
+  (`2n + 1`), escapes in identifiers.  `Pseudo::eq` ignores `is_syntactic_class` (simple.rs:426);
   the model drops that field (a pseudo-element is `pelem name`, printed `::name`).
 -/
 namespace Grass.Selector
@@ -173,13 +177,88 @@ def notMark (c : Char) : Bool := c != '\x01'
 
 def lowerName (n : Name) : Name := n.map Char.toLower
 
-/-- Does the element's attribute value `w` satisfy `[n=v]`?  `v` carries the selector's value and,
-    after U+0001, its modifier (attribute.rs:139): `i` compares ASCII case-insensitively
-    (Selectors 4 §6.3), `s` or no modifier exactly. -/
+/-! #### attribute operators (attribute.rs:223 `AttributeOp`, round 3)
+
+  The model keeps the three fields `value`, `modifier`, `op` of grass's `Attribute` (attribute.rs:15)
+  in the one name `v` of `.attr n (some v)`:  `value`, then — only when there is a modifier or an
+  operator other than `=` — U+0001, the modifier letter (or nothing), and — only for an operator other
+  than `=` — U+0002 and the operator's first character (`~ | ^ $ *`).  `[t=v]` is `"v"`, `[t=v i]` is
+  `"v\x01i"` (as before), `[t^=v]` is `"v\x01\x02^"`, `[t~="a b" s]` is `"a b\x01s\x02~"`.
+  Values never contain U+0001/U+0002 (the parser rejects them), so the encoding is injective and
+  `Attribute::eq` (attr, value, modifier, op — attribute.rs:23) is equality of `(n, v)`. -/
+
+def notMark2 (c : Char) : Bool := c != '\x02'
+
+/-- `AttributeOp` without `Any` (`[t]` is `.attr n none`) -/
+inductive AttrOp where
+  | eq | incl | dash | pre | suf | sub
+  deriving DecidableEq, Repr, Inhabited
+
+/-- attribute.rs:95 `attribute_operator`: the character before `=` -/
+def attrOpOfChar (c : Char) : Option AttrOp :=
+  if c == '~' then some .incl else if c == '|' then some .dash else if c == '^' then some .pre
+  else if c == '$' then some .suf else if c == '*' then some .sub else none
+
+/-- attribute.rs:262 `From<AttributeOp> for &str` -/
+def AttrOp.text : AttrOp → List Char
+  | .eq => ['='] | .incl => ['~', '='] | .dash => ['|', '='] | .pre => ['^', '=']
+  | .suf => ['$', '='] | .sub => ['*', '=']
+
+def attrVal (v : Name) : Name := v.takeWhile notMark
+def attrTail (v : Name) : Name := (v.dropWhile notMark).drop 1
+def attrMod (v : Name) : Name := (attrTail v).takeWhile notMark2
+/-- `none`: not an encoding the parser produces -/
+def attrOp (v : Name) : Option AttrOp :=
+  match ((attrTail v).dropWhile notMark2).drop 1 with
+  | [] => some .eq
+  | [c] => attrOpOfChar c
+  | _ => none
+
+/-- the encoding described above -/
+def attrEnc (val : Name) (md op : Option Char) : Name :=
+  val ++ match md, op with
+    | none, none => []
+    | some m, none => ['\x01', m]
+    | none, some o => ['\x01', '\x02', o]
+    | some m, some o => ['\x01', m, '\x02', o]
+
+def isWsC (c : Char) : Bool := c == ' ' || c == '\n' || c == '\t' || c == '\r' || c == '\x0c'
+
+/-- whitespace-separated words of an attribute value (Selectors 4 §6.1 `~=`) -/
+def wordsOf : Name → List Name
+  | [] => [[]]
+  | c :: cs =>
+    match wordsOf cs with
+    | [] => [[]]
+    | h :: t => if isWsC c then [] :: h :: t else (c :: h) :: t
+
+def isInfixOfC (a : Name) : Name → Bool
+  | [] => a.isEmpty
+  | c :: cs => a.isPrefixOf (c :: cs) || isInfixOfC a cs
+
+/-- Selectors 4 §6.1/§6.2: does the element's attribute value `b` satisfy operator `op` with the
+    selector's value `a`?  (`~=` with an empty value or one containing whitespace, and `^= $= *=`
+    with an empty value, represent nothing.) -/
+def attrOpMatch (op : AttrOp) (a b : Name) : Bool :=
+  match op with
+  | .eq => a == b
+  | .incl => !a.isEmpty && !a.any isWsC && (wordsOf b).contains a
+  | .dash => a == b || (a ++ ['-']).isPrefixOf b
+  | .pre => !a.isEmpty && a.isPrefixOf b
+  | .suf => !a.isEmpty && a.isSuffixOf b
+  | .sub => !a.isEmpty && isInfixOfC a b
+
+/-- Does the element's attribute value `w` satisfy `[n op v]`?  `v` carries the selector's value,
+    modifier and operator (encoding above; attribute.rs:139): modifier `i` compares ASCII
+    case-insensitively (Selectors 4 §6.3), `s` or no modifier exactly.  For a `v` without U+0002 this
+    is the round-2 definition (`=` only). -/
 def attrValMatch (v w : Name) : Bool :=
-  let val := v.takeWhile notMark
-  let md := (v.dropWhile notMark).drop 1
-  if md = ['i'] || md = ['I'] then lowerName val == lowerName w else val == w
+  let val := attrVal v
+  let md := attrMod v
+  let fold := md = ['i'] || md = ['I']
+  match attrOp v with
+  | some op => attrOpMatch op (if fold then lowerName val else val) (if fold then lowerName w else w)
+  | none => false
 
 /-! ### matching semantics (CSS Selectors 4 restricted to the alphabet) -/
 mutual
@@ -642,8 +721,9 @@ def addSuffix (s : Simple) (suffix : Name) : Except RErr Simple :=
   | .placeholder n => .ok (.placeholder (n ++ suffix))
   | .id n => .ok (.id (n ++ suffix))
   | .cls n => .ok (.cls (n ++ suffix))
-  | .pclass n => .ok (.pclass (n ++ suffix))
-  | .pelem n => .ok (.pelem (n ++ suffix))
+  -- a pseudo with an argument (`Pseudo{argument: Some(..)}`, kept as the opaque name `name(arg)`) takes no suffix
+  | .pclass n => if n.contains '(' then .error .invalidSuffix else .ok (.pclass (n ++ suffix))
+  | .pelem n => if n.contains '(' then .error .invalidSuffix else .ok (.pelem (n ++ suffix))
   | _ => .error .invalidSuffix
 
 /-- one parent complex with the compound `& suffix? rest` attached to its last compound -/
@@ -771,10 +851,16 @@ def isIdentStartB (c : Char) : Bool := c.isAlpha || c == '_' || c == '-'
 def isIdentCharB (c : Char) : Bool := c.isAlphanum || c == '_' || c == '-'
 
 def attrValueText (v : Name) : List Char :=
-  let val := v.takeWhile notMark
-  let md := (v.dropWhile notMark).drop 1
+  let val := attrVal v
+  let md := attrMod v
   let isId := val.all isIdentCharB && (val.head?.map isIdentStartB).getD false
   (if isId then val else '"' :: val ++ ['"']) ++ (if md.isEmpty then [] else ' ' :: md)
+
+/-- the operator as printed (attribute.rs:172 `f.write_str(self.op.into())`) -/
+def attrOpText (v : Name) : List Char :=
+  match attrOp v with
+  | some op => op.text
+  | none => ['=']
 
 def PName.text : PName → Name
   | .not => "not".toList | .is => "is".toList | .where_ => "where".toList
@@ -790,7 +876,7 @@ def renderS : Simple → List Char
   | .cls n => '.' :: n
   | .id n => '#' :: n
   | .attr n none => '[' :: n ++ [']']
-  | .attr n (some v) => '[' :: n ++ '=' :: attrValueText v ++ [']']
+  | .attr n (some v) => '[' :: n ++ attrOpText v ++ attrValueText v ++ [']']
   | .pclass n => ':' :: n
   | .pelem n => ':' :: ':' :: n
   | .placeholder n => '%' :: n
@@ -865,33 +951,104 @@ def spanUntilQuote (q : Char) : List Char → Option (Name × List Char)
     else if c == '\\' then none
     else (spanUntilQuote q cs).map fun r => (c :: r.1, r.2)
 
+/-- attribute.rs:95 `attribute_operator`: `=`, or one of `~ | ^ $ *` followed by `=` -/
+def pAttrOp : List Char → Option (Option Char × List Char)
+  | '=' :: r => some (none, r)
+  | c :: '=' :: r => if (attrOpOfChar c).isSome then some (some c, r) else none
+  | _ => none
+
+/-- the value: a quoted string (no escapes in the model) or an identifier (attribute.rs:131) -/
+def pAttrValue (r : List Char) : Option (Name × List Char) :=
+  match r with
+  | '"' :: r'' => spanUntilQuote '"' r''
+  | '\'' :: r'' => spanUntilQuote '\'' r''
+  | _ => pIdent r
+
+/-- optional modifier letter, then `]` (attribute.rs:139–157) -/
+def pAttrEnd (r : List Char) : Option (Option Char × List Char) :=
+  match skipWs r with
+  | ']' :: r3 => some (none, r3)
+  | m :: r3 =>
+    if m.isAlpha then
+      match skipWs r3 with
+      | ']' :: r4 => some (some m, r4)
+      | _ => none
+    else none
+  | [] => none
+
+/-- `Attribute::from_tokens` (attribute.rs:110) without namespaces: name, then `]` or operator,
+    value, optional modifier, `]` -/
 def pAttr (cs : List Char) : Option (Simple × List Char) :=
   match pIdent (skipWs cs) with
   | none => none
   | some (n, r) =>
     match skipWs r with
     | ']' :: r' => some (.attr n none, r')
-    | '=' :: r' =>
-      let r' := skipWs r'
-      let val : Option (Name × List Char) :=
-        match r' with
-        | '"' :: r'' => spanUntilQuote '"' r''
-        | '\'' :: r'' => spanUntilQuote '\'' r''
-        | _ => pIdent r'
-      match val with
-      | some (v, r'') =>
-        if v.contains '\x01' then none else
-        match skipWs r'' with
-        | ']' :: r3 => some (.attr n (some v), r3)
-        | m :: r3 =>
-          if m.isAlpha then
-            match skipWs r3 with
-            | ']' :: r4 => some (.attr n (some (v ++ ['\x01', m])), r4)
-            | _ => none
-          else none
-        | [] => none
+    | r1 =>
+      match pAttrOp r1 with
       | none => none
-    | _ => none
+      | some (op, r') =>
+        match pAttrValue (skipWs r') with
+        | none => none
+        | some (v, r'') =>
+          if v.contains '\x01' || v.contains '\x02' then none else
+          match pAttrEnd r'' with
+          | some (md, r3) => some (.attr n (some (attrEnc v md op)), r3)
+          | none => none
+
+/-! #### pseudos with a non-selector argument (parse.rs:243–311, round 3)
+
+  `:nth-child(An+B)`, `:nth-last-child(An+B)`, `:lang(en)`, `:nth-of-type(2n+1)`, `::part(x)`, unknown
+  `:foo(bar)`: grass keeps `name` and the argument text (`Pseudo{argument: Some(..), selector: None}`),
+  compares them by equality (simple.rs:419) and prints `:name(argument)` (simple.rs:446).  The model
+  keeps the whole text `name(argument)` as the name of an opaque `.pclass` / `.pelem`, so printer,
+  superselector, unification and matching (an opaque flag / pseudo-element of the element) need no new
+  case.  Only canonical argument texts are accepted (letters, digits, `+ - _`, no inner whitespace;
+  for `nth-child`/`nth-last-child` a well-formed `An+B` in the form `parse_a_n_plus_b` (parse.rs:403)
+  prints it), so that grass's argument text is the text read.  Names that take a selector
+  (parse.rs:21–34, also behind a vendor prefix) and `nth-child(.. of S)` stay `unsupported`. -/
+
+def isArgChar (c : Char) : Bool := c.isAlphanum || c == '+' || c == '-' || c == '_'
+
+def spanArg : List Char → Name × List Char
+  | c :: cs => if isArgChar c then let r := spanArg cs; (c :: r.1, r.2) else ([], c :: cs)
+  | [] => ([], [])
+
+def isDigits (l : List Char) : Bool := !l.isEmpty && l.all Char.isDigit
+
+/-- the texts `parse_a_n_plus_b` (parse.rs:403) returns unchanged -/
+def isAnB (a : Name) : Bool :=
+  a = "even".toList || a = "odd".toList ||
+  (let a1 := match a with
+    | '+' :: r => r
+    | '-' :: r => r
+    | _ => a
+   let ds := a1.takeWhile Char.isDigit
+   match a1.dropWhile Char.isDigit with
+   | [] => !ds.isEmpty
+   | 'n' :: t =>
+     match t with
+     | [] => true
+     | '+' :: u => isDigits u
+     | '-' :: u => isDigits u
+     | _ => false
+   | _ => false)
+
+/-- parse.rs:21–34 `SELECTOR_PSEUDO_CLASSES` / `SELECTOR_PSEUDO_ELEMENTS` -/
+def takesSelector (n : Name) : Bool :=
+  (pnameOf n).isSome || n = "current".toList || n = "has".toList || n = "host".toList ||
+  n = "host-context".toList || n = "slotted".toList
+
+/-- text after `name(`: the opaque name `name(arg)` and what follows `)` -/
+def pOpaqueArg (isElem : Bool) (n : Name) (r : List Char) : Option (Name × List Char) :=
+  if n.head? = some '-' || takesSelector n || isFakePelem n then none else
+  let sp := spanArg (skipWs r)
+  if sp.1.isEmpty then none else
+  match sp.2 with
+  | ')' :: r' =>
+    if !isElem && (n = "nth-child".toList || n = "nth-last-child".toList) && !isAnB sp.1 then none
+    else some (n ++ '(' :: sp.1 ++ [')'], r')
+  | _ => none
 
 def normAll : SelList → Option (List RComplex)
   | [] => some []
@@ -913,14 +1070,14 @@ def pSimple : Nat → List Char → Option (Simple × List Char)
     | '&' :: r => let sp := spanIdent r; some (.parent (if sp.1.isEmpty then none else some sp.1), sp.2)
     | ':' :: ':' :: r =>
       match pIdent r with
-      | some (_, '(' :: _) => none
+      | some (n, '(' :: r') => (pOpaqueArg true n r').map fun (m, r'') => (.pelem m, r'')
       | some (n, r') => some (.pelem n, r')
       | none => none
     | ':' :: r =>
       match pIdent r with
       | some (n, '(' :: r') =>
         match pnameOf n with
-        | none => none
+        | none => (pOpaqueArg false n r').map fun (m, r'') => (.pclass m, r'')
         | some k =>
           match pList f (skipWs r') with
           | some (l, r'') =>
@@ -1088,8 +1245,12 @@ def applyAtom (e : Elem) : Simple → List Elem
   | .attr n v =>
     -- the selector's value as written and in the other letter case (for the `i` modifier)
     let val := (v.getD ['v']).takeWhile notMark
-    [{ e with attrs := (n, val) :: e.attrs.filter (fun kv => kv.1 ≠ n) },
-     { e with attrs := (n, val.map Char.toUpper) :: e.attrs.filter (fun kv => kv.1 ≠ n) }]
+    -- for an operator other than `=`: values that have `val` as a word / dash prefix / prefix / suffix / infix
+    let more : List Name :=
+      if (v.map attrOp).getD (some .eq) == some .eq then []
+      else [val ++ ['-', 'x'], 'x' :: ' ' :: val, val ++ ['x'], 'x' :: val, 'x' :: val ++ ['x'], 'x' :: '-' :: val,
+            val.map Char.toUpper ++ ['-', 'x']]
+    ([val, val.map Char.toUpper] ++ more).map fun w => { e with attrs := (n, w) :: e.attrs.filter (fun kv => kv.1 ≠ n) }
   | .pclass n => [{ e with flags := if e.flags.contains n then e.flags.filter (· ≠ n) else e.flags ++ [n] }]
   | .pelem n => [{ e with pe := some n }]
   | _ => []
@@ -1197,7 +1358,7 @@ def ctxUniverse (sels : List SelList) (seed nrand : Nat) (exh : Bool) : List Ctx
 def elemText (e : Elem) : List Char :=
   e.type ++ (match e.id with | some i => '#' :: i | none => []) ++
   e.classes.flatMap (fun c => '.' :: c) ++
-  e.attrs.flatMap (fun (k, v) => '[' :: k ++ '=' :: v ++ [']']) ++
+  e.attrs.flatMap (fun (k, v) => '[' :: k ++ '=' :: attrValueText v ++ [']']) ++
   e.flags.flatMap (fun f => ':' :: f) ++
   (match e.pe with | some p => ':' :: ':' :: p | none => [])
 
